@@ -247,6 +247,10 @@ def start(argv):
             bitmap.append(pal[(byte & 0b00001100) >> 2])
             bitmap.append(pal[byte & 0b00000011])
 
+    if len(bitmap) < width * height:
+        sys.exit("Image data ends before the picture is complete.")
+    bitmap = bitmap[0 : width * height]
+
     with open(args.output_image, "wb") as file:
         w = png.Writer(width, height, palette=coco3_rgb, bitdepth=8)
         w.write_array(file, bitmap)
